@@ -13,6 +13,12 @@ CHECKS["C06"] = ("model_checking", "explicit-state exploration of the real Encod
 CHECKS["C12"] = ("exploration", "bounded-exhaustive input x option-configuration enumeration against metamorphic laws and a reference value tree",
   "Every string of the alphabet views x {none, each formatting option singly, explicit-false variants, all pairs of 9 interacting options} x {Format, AppendFormat (also with overlapping dst/src), Compact, Indent, Canonicalize}, the full 2^13 option product on an option-sensitive corpus, and a reorder stress family. Oracle: success iff valid under the effective options; output valid; same tree (numbers by value only under Canonicalize*, order ignored only under Reorder); number/string spellings kept where the statement says so; fixed point; unmodified on error; no reallocation when already formatted.",
   "Trusted: reference recognizer/value tree internal/refjson; strconv.ParseFloat.", "2/C12")
+CHECKS["C11"] = ("exploration", "bounded-exhaustive string enumeration through every encode/decode path against an independent minimal quoter/unquoter",
+  "Every single byte, every short string over critical byte alphabets (covering every ill-formed UTF-8 prefix class), every code point (thorough) - through AppendQuote, WriteToken, Marshal(string / map key / TextMarshaler / TextAppender key / struct field name), and raw spellings through MarshalJSON, Value.Format, AppendFormat, WriteValue with and without PreserveRawStrings - x escape option sets x AllowInvalidUTF8; every string-literal body of two alphabet views through AppendUnquote, ReadToken, Unmarshal into string/any/map key. Oracle: unquote(quote(s)) = s, minimal form, no forbidden raw character under the escape options, one U+FFFD per ill-formed byte with an error unless allowed.",
+  "Trusted: reference quoter/unquoter in internal/refjson.", "2/C11")
+CHECKS["C13"] = ("exploration", "generated-text enumeration (all member orders / spellings within bounds) against an independent RFC 8785 serializer",
+  "Objects over every subset of <=K names from a menu built to separate UTF-16 from UTF-8 order, in every member order x whitespace styles x name respellings; ~4000 decimal values x 9 spellings; code points x every escape spelling; all trees of <=N nodes. Canonicalize output must equal the reference RFC 8785 serialization (hence identical across each respelling class), denote the same value and be a fixed point.",
+  "Trusted: reference serializer (unicode/utf16 for the sort key, strconv shortest digits + own ES6 layout).", "2/C13")
 NOT_YET = {}
 def main():
     props=[json.loads(l)["id"] for l in open("properties.jsonl")]
